@@ -172,6 +172,7 @@ type Result struct {
 	InitSteps   int64
 	WallSeconds float64
 	Samples     []PathSample
+	Witnesses   []PathWitness
 	Exhausted   bool // false if MaxPaths hit
 	MaxDepth    int
 	Nontrivial  int // paths that discharged at least one obligation or reached a label
@@ -194,6 +195,15 @@ type Options struct {
 	Seed          int64
 	OnlyPrefix    []int // run just this path (debugging / replay)
 	Bounds        map[string]int
+	Witnesses     int // number of completed paths for which a model of the path condition is kept (reservoir sample)
+}
+
+// PathWitness is one concrete input (a model of the path condition) of a completed, violation-free path together
+// with what the engine observed on that path; the native build must observe the same for these inputs.
+type PathWitness struct {
+	Prefix  []int    `json:"decisions"`
+	Draws   []*Draw  `json:"draws"`
+	Reached []string `json:"reached"`
 }
 
 func (e *Engine) Explore(fn *ssa.Function, opt Options) *Result {
@@ -210,6 +220,8 @@ func (e *Engine) Explore(fn *ssa.Function, opt Options) *Result {
 		queue = [][]int{opt.OnlyPrefix}
 	}
 	active := 0
+	started := 0
+	wrng := rand.New(rand.NewSource(opt.Seed + 7))
 	cond := sync.NewCond(&mu)
 	stop := false
 	workers := e.Workers
@@ -244,9 +256,11 @@ func (e *Engine) Explore(fn *ssa.Function, opt Options) *Result {
 				prefix := queue[len(queue)-1]
 				queue = queue[:len(queue)-1]
 				active++
+				started++
+				wantWitness := opt.Witnesses > 0 && (started <= opt.Witnesses || wrng.Intn(started) < opt.Witnesses)
 				mu.Unlock()
 
-				p := e.runPath(fn, prefix, solver, opt)
+				p := e.runPath(fn, prefix, solver, opt, wantWitness)
 
 				mu.Lock()
 				active--
@@ -301,6 +315,13 @@ func (e *Engine) Explore(fn *ssa.Function, opt Options) *Result {
 				if len(res.Samples) < 12 && (p.outcome == OutcomeOK || len(p.violations) > 0) && (len(p.reached) > 0 || len(p.violations) > 0) {
 					res.Samples = append(res.Samples, p.sample())
 				}
+				if p.witness != nil {
+					if len(res.Witnesses) < opt.Witnesses {
+						res.Witnesses = append(res.Witnesses, *p.witness)
+					} else {
+						res.Witnesses[wrng.Intn(len(res.Witnesses))] = *p.witness
+					}
+				}
 				if opt.OnlyPrefix == nil {
 					queue = append(queue, p.forks...)
 				}
@@ -330,6 +351,7 @@ type pathResult struct {
 	*Path
 	outcome    PathOutcome
 	outcomeMsg string
+	witness    *PathWitness
 }
 
 func (p *pathResult) sample() PathSample {
@@ -350,7 +372,7 @@ func (p *pathResult) sample() PathSample {
 	return s
 }
 
-func (e *Engine) runPath(fn *ssa.Function, prefix []int, solver *Solver, opt Options) (pr *pathResult) {
+func (e *Engine) runPath(fn *ssa.Function, prefix []int, solver *Solver, opt Options, wantWitness bool) (pr *pathResult) {
 	solver.Reset()
 	p := &Path{eng: e, solver: solver, prefix: prefix, facts: map[string]bool{}, reached: map[string]int{},
 		bounds: opt.Bounds, maxSteps: e.MaxSteps, env: map[string]string{}, notes: map[string]int{}, funcs: map[string]int{}, funcsSeen: map[*ssa.Function]struct{}{}, mapOrder: opt.MapOrder}
@@ -369,6 +391,15 @@ func (e *Engine) runPath(fn *ssa.Function, prefix []int, solver *Solver, opt Opt
 			pr.outcome = OutcomeOK
 			if len(p.violations) > 0 {
 				pr.outcome = OutcomeViolation
+			} else if wantWitness {
+				if v, m := p.check(nil, true); v == Sat {
+					w := &PathWitness{Prefix: append([]int{}, p.taken...), Draws: p.modelDraws(m)}
+					for k := range p.reached {
+						w.Reached = append(w.Reached, k)
+					}
+					sort.Strings(w.Reached)
+					pr.witness = w
+				}
 			}
 			return
 		}
